@@ -8,8 +8,15 @@
    lines, blank line before the last line, pragma once / licence header, region pairing, undo, exit status.
    NO theorem (seeded runs against the real linter only): include order, first include, preprocessor indentation
    (C20 models those), namespace versus path, forward declarations, brace / return formatting, cross-component and
-   dependency rules, and all other validators.  "Silence on the whole tree" is an execution, not a theorem. *)
-From Symv Require Import Lint.Regex Lint.RegexProofs Lint.Deps Lint.DepsProofs Base.PyOps Gen.LintPatterns Gen.LintDeps Lint.LineRules Lint.LineRulesProofs.
+   dependency rules, and all other validators.  "Silence on the whole tree" is an execution, not a theorem.
+
+   The two rules that look at the line after strip_comments_and_strings ("Spaces in the middle", "Comma should be
+   followed by a space") are proved for EVERY line whose text left of the seeded word is `closed_prefix` (no "//", every
+   "/*" closed by a "*/", quotes paired into non-empty literals without the delimiting quote -- and, in character
+   literals, any quote -- inside), whatever
+   follows the word; the shapes outside that class on which the linter stays silent are stated as `_refuted` with a
+   witness line.  The dependency closure is characterised exactly (paths of length >= 1; loop error iff a cycle). *)
+From Symv Require Import Lint.Regex Lint.RegexProofs Lint.Deps Lint.DepsProofs Base.PyOps Gen.LintPatterns Gen.LintDeps Lint.LineRules Lint.LineRulesProofs Lint.LineRulesProofs2 Lint.DepsProofs2.
 Open Scope Z_scope.
 
 (* ---- the regex engine ---- *)
@@ -205,6 +212,203 @@ Proof.
 Qed.
 Print Assumptions seeded_flagged_ws_comma_partial.
 
+(* ---- the rules that look at the stripped line, for every closed prefix ----
+   closed_prefix pre (a decision procedure, Lint/LineRulesProofs2.v) reads pre from the left the way the stripper does:
+   (1) every "/" of pre is followed, inside pre, by something other than "/" (no "//", pre does not end with "/");
+   (2) every "/*" opens a comment that is closed inside pre by the nearest "*/" after at least one code point;
+   (3) in the text with these comments replaced, every double or single quote outside a literal opens a literal that is
+       closed by the same quote after at least one code point, none of them a double quote and (in a character literal)
+       none a single quote either -- "it's" is fine, a character literal holding a double quote is not.
+   That is: the seeded word lies outside comments and string / character literals, and the comments and literals to its
+   left are ones the linter's stripper delimits the way C++ does.  Outside the class: see the _refuted statements below
+   (empty literal, "//" inside a literal, a double quote inside a character literal); escaped quotes inside literals are
+   neither proved nor refuted in general.  Per-run kernel obligations on the regenerated patterns first. *)
+Theorem stripped_rules_shape :
+  anchor_free (p_re ws_spaces_middle) = true /\ matches (p_re ws_spaces_middle) (p_wit ws_spaces_middle) = true
+  /\ no_strip_chars (p_wit ws_spaces_middle) = true /\ p_re ws_comma = comma_re /\ comma_exempt = [44; 41].
+Proof. vm_compute. repeat split; reflexivity. Qed.
+
+(* what strip_comments_and_strings does around a word without "/" and quotes that follows a closed prefix: it works on
+   both sides independently and leaves the word alone, WHATEVER follows (comments, unclosed literals, ...) *)
+Theorem strip_keeps_word_after_closed_prefix : forall pre w post,
+  closed_prefix pre = true -> no_strip_chars w = true -> strip_cs (pre ++ w ++ post) = strip_cs pre ++ w ++ strip_cs post.
+Proof. exact (fun pre w post Hp Hw => strip_cs_at pre w post (closed_prefix_closed pre Hp) Hw). Qed.
+Print Assumptions strip_keeps_word_after_closed_prefix.
+
+(* the class contains every line on which stripping is the identity by absence of "/" and quotes (the premise of the two
+   _partial theorems above) *)
+Theorem closed_prefix_contains_plain : forall l, no_strip_chars l = true -> closed_prefix l = true.
+Proof. exact no_strip_closed_prefix. Qed.
+Print Assumptions closed_prefix_contains_plain.
+
+(* a double space inserted at column k of ANY line whose first k code points are a closed prefix is reported, whatever
+   the rest of the line is.  The class is in the premise: prefixes outside closed_prefix on which the linter is silent are
+   the _refuted statements below; prefixes holding a literal with a backslash-escaped quote are outside the class too and
+   are neither proved nor refuted here (the seeded sites of the check avoid lines with a backslash). *)
+Theorem seeded_flagged_ws_spaces_middle : forall hdr f i k l,
+  nth_error f i = Some l -> closed_prefix (firstn k l) = true ->
+  In (mkf W (Z.of_nat i + 1) "Spaces in the middle") (lint_file hdr (seed_word i k (p_wit ws_spaces_middle) f)).
+Proof.
+  exact (fun hdr f i k l Hl Hp => seeded_word_at hdr f i k _ l _ Hl
+    (per_line_ws _ _ _ (ws_spaces_middle_reports_closed _ (firstn k l) (skipn k l)
+      (proj1 stripped_rules_shape) (proj1 (proj2 stripped_rules_shape)) (proj1 (proj2 (proj2 stripped_rules_shape))) Hp))).
+Qed.
+Print Assumptions seeded_flagged_ws_spaces_middle.
+
+(* a comma followed by ANY code point c other than a blank, ")" , "/" and the quotes, inserted after a closed prefix whose
+   stripped form holds no exempt ",)" : reported.  (The code looks at the leftmost comma candidate of the stripped line only;
+   an earlier candidate other than ",)" is as good as the seeded one, so only ",)" has to be excluded.) *)
+Theorem seeded_flagged_ws_comma : forall hdr f i k l c,
+  nth_error f i = Some l -> closed_prefix (firstn k l) = true ->
+  no_strip_chars [44; c] = true -> c <> 32 -> c <> 41 ->
+  contains comma_exempt (strip_cs (firstn k l)) = false ->
+  In (mkf W (Z.of_nat i + 1) "Comma should be followed by a space") (lint_file hdr (seed_word i k [44; c] f)).
+Proof.
+  exact (fun hdr f i k l c Hl Hp Hw H32 H41 Hc => seeded_word_at hdr f i k _ l _ Hl
+    (per_line_ws _ _ _ (ws_comma_reports_closed _ (firstn k l) c (skipn k l)
+      (proj1 (proj2 (proj2 (proj2 stripped_rules_shape)))) (proj2 (proj2 (proj2 (proj2 stripped_rules_shape)))) Hp Hw H32 H41 Hc))).
+Qed.
+Print Assumptions seeded_flagged_ws_comma.
+
+Example stripped_rules_nonvacuous :
+  let l := of_string "	call(""a/b"", 'c', /* don't */ ""it's"", x / y) + g(u); // note" in
+  nth_error [l] 0 = Some l
+  /\ closed_prefix (firstn 46 l) = true /\ closed_prefix (firstn 50 l) = true
+  /\ no_strip_chars [44; 120] = true /\ 120 <> 32 /\ 120 <> 41 /\ p_wit ws_comma = [44; 120]
+  /\ contains comma_exempt (strip_cs (firstn 50 l)) = false
+  /\ strip_cs (firstn 50 l) = of_string "	call(dummy, dummy, dummy dummy, x / y) + g(u"
+  /\ In (mkf W 1 "Spaces in the middle") (lint_file false (seed_word 0 46 (p_wit ws_spaces_middle) [l]))
+  /\ In (mkf W 1 "Comma should be followed by a space") (lint_file false (seed_word 0 50 [44; 120] [l])).
+Proof. vm_compute. repeat split; try reflexivity; try discriminate; auto 20. Qed.
+
+(* ---- every violation word, not only the regenerated witness: w is ANY word the rule's pattern matches between neighbours
+   of the classes found at column k (admissible = the derivative matcher run on w with one representative per class;
+   for a pattern without assertions that is just `matches`), inserted at ANY column of ANY line ---- *)
+Theorem seeded_flagged_typo_any_word : forall p hdr f i k l w,
+  In p typo_table -> nth_error f i = Some l ->
+  admissible (p_re p) w (cls (last_opt (firstn k l))) (cls (hd_error (skipn k l))) = true ->
+  In (mkf "nameTypo" (Z.of_nat i + 1) (p_id p)) (lint_file hdr (seed_word i k w f)).
+Proof.
+  exact (fun p hdr f i k l w Hp Hl Ha => seeded_word_at hdr f i k w l _ Hl
+    (per_line_typo _ _ _ (typo_reports _ _ p Hp (search_intro_cls _ _ _ _ Ha)))).
+Qed.
+Print Assumptions seeded_flagged_typo_any_word.
+
+Theorem seeded_flagged_template_any_word : forall hdr f i k l w,
+  nth_error f i = Some l -> admissible (p_re template_pat) w (cls (last_opt (firstn k l))) (cls (hd_error (skipn k l))) = true ->
+  In (mkf "templateFollowedBySpace" (Z.of_nat i + 1) "Template followed by space") (lint_file hdr (seed_word i k w f)).
+Proof.
+  exact (fun hdr f i k l w Hl Ha => seeded_word_at hdr f i k w l _ Hl
+    (per_line_template _ _ _ (template_reports _ _ (search_intro_cls _ _ _ _ Ha)))).
+Qed.
+Print Assumptions seeded_flagged_template_any_word.
+
+Theorem seeded_flagged_ws_trailing_any_word : forall hdr f i k l w,
+  nth_error f i = Some l -> admissible (p_re ws_whitespaces) w (cls (last_opt (firstn k l))) (cls (hd_error (skipn k l))) = true ->
+  In (mkf W (Z.of_nat i + 1) "Whitespace at line ending") (lint_file hdr (seed_word i k w f)).
+Proof.
+  exact (fun hdr f i k l w Hl Ha => seeded_word_at hdr f i k w l _ Hl
+    (per_line_ws _ _ _ (ws_trailing_reports _ _ (search_intro_cls _ _ _ _ Ha)))).
+Qed.
+Print Assumptions seeded_flagged_ws_trailing_any_word.
+
+Theorem seeded_flagged_ws_space_operator_any_word : forall hdr f i k l w,
+  nth_error f i = Some l -> admissible (p_re ws_space_operator) w (cls (last_opt (firstn k l))) (cls (hd_error (skipn k l))) = true ->
+  In (mkf W (Z.of_nat i + 1) "Space after operator") (lint_file hdr (seed_word i k w f)).
+Proof.
+  exact (fun hdr f i k l w Hl Ha => seeded_word_at hdr f i k w l _ Hl
+    (per_line_ws _ _ _ (ws_space_operator_reports _ _ (search_intro_cls _ _ _ _ Ha)))).
+Qed.
+Print Assumptions seeded_flagged_ws_space_operator_any_word.
+
+Theorem seeded_flagged_ws_tab_inside_any_word : forall hdr f i k l w,
+  nth_error f i = Some l -> admissible (p_re ws_tab_inside) w (cls (last_opt (firstn k l))) (cls (hd_error (skipn k l))) = true ->
+  In (mkf W (Z.of_nat i + 1) "Tab present inside the text") (lint_file hdr (seed_word i k w f)).
+Proof.
+  exact (fun hdr f i k l w Hl Ha => seeded_word_at hdr f i k w l _ Hl
+    (per_line_ws _ _ _ (ws_tab_inside_reports _ _ (search_intro_cls _ _ _ _ Ha)))).
+Qed.
+Print Assumptions seeded_flagged_ws_tab_inside_any_word.
+
+(* spaces (and tabs before them) in front of any line: re.match, so the word starts the line *)
+Theorem seeded_flagged_ws_spaces_start_any_word : forall hdr f i l w,
+  nth_error f i = Some l -> admissible (p_re ws_spaces_start) w KNone (cls (hd_error l)) = true ->
+  In (mkf W (Z.of_nat i + 1) "Spaces at beginning of a line") (lint_file hdr (seed_word i 0 w f)).
+Proof.
+  exact (fun hdr f i l w Hl Ha => seeded_word_at hdr f i 0 w l _ Hl
+    (per_line_ws _ _ _ (ws_spaces_start_reports _ _ (match_prefix_intro_cls _ w l Ha)))).
+Qed.
+Print Assumptions seeded_flagged_ws_spaces_start_any_word.
+
+(* two or more blanks (any word of the pattern without "/" and quotes) after a closed prefix *)
+Theorem seeded_flagged_ws_spaces_middle_any_word : forall hdr f i k l w,
+  nth_error f i = Some l -> matches (p_re ws_spaces_middle) w = true -> no_strip_chars w = true ->
+  closed_prefix (firstn k l) = true ->
+  In (mkf W (Z.of_nat i + 1) "Spaces in the middle") (lint_file hdr (seed_word i k w f)).
+Proof.
+  exact (fun hdr f i k l w Hl Hm Hw Hp => seeded_word_at hdr f i k _ l _ Hl
+    (per_line_ws _ _ _ (ws_spaces_middle_reports_closed_word _ (firstn k l) w (skipn k l) (proj1 stripped_rules_shape) Hm Hw Hp))).
+Qed.
+Print Assumptions seeded_flagged_ws_spaces_middle_any_word.
+
+Example any_word_nonvacuous :
+  let l := of_string "	int x = f(a);" in
+  nth_error [l] 0 = Some l
+  (* "y 	 " at the end of the line; "template 	<" and "(! " and ")	" after "= "; "	  " in front; five blanks after "=" *)
+  /\ admissible (p_re ws_whitespaces) (of_string "y 	 ") (cls (last_opt (firstn 14 l))) (cls (hd_error (skipn 14 l))) = true
+  /\ admissible (p_re template_pat) (of_string "template 	<") (cls (last_opt (firstn 9 l))) (cls (hd_error (skipn 9 l))) = true
+  /\ admissible (p_re ws_space_operator) (of_string "(! ") (cls (last_opt (firstn 9 l))) (cls (hd_error (skipn 9 l))) = true
+  /\ admissible (p_re ws_tab_inside) (of_string ")	") (cls (last_opt (firstn 9 l))) (cls (hd_error (skipn 9 l))) = true
+  /\ admissible (p_re ws_spaces_start) (of_string "	  ") KNone (cls (hd_error l)) = true
+  /\ matches (p_re ws_spaces_middle) (of_string "     ") = true /\ no_strip_chars (of_string "     ") = true
+  /\ closed_prefix (firstn 8 l) = true
+  /\ existsb (fun p => admissible (p_re p) (of_string "ime stamp") (cls (last_opt (firstn 9 l))) (cls (hd_error (skipn 9 l)))) typo_table = true.
+Proof. vm_compute. repeat split; reflexivity. Qed.
+
+(* ---- outside the class: lines on which the linter stays silent although the seeded word lies outside comments and
+   literals in the C++ reading.  First what the stripper does there (general), then a witness line each. ---- *)
+(* an EMPTY string literal is not recognised ("(.+?)" needs one code point): the text from it up to the next double quote
+   is taken for one literal and disappears, a seeded word inside it included (known finding) *)
+Theorem strip_swallows_after_empty_literal : forall pre mid post,
+  closed_prefix pre = true -> no_strip_chars mid = true ->
+  strip_cs (pre ++ [34; 34] ++ mid ++ [34] ++ post) = strip_cs pre ++ of_string "dummy" ++ strip_cs post.
+Proof. exact (fun pre mid post Hp Hm => strip_cs_empty_literal pre mid post (closed_prefix_closed pre Hp) Hm). Qed.
+Print Assumptions strip_swallows_after_empty_literal.
+
+(* "//" is cut first, inside a string literal or not: everything from it on disappears *)
+Theorem strip_cuts_at_double_slash : forall pre post,
+  follow_ok 47 pre = true -> strip_cs (pre ++ [47; 47] ++ post) = strip_cs pre.
+Proof. exact (fun pre post H => strip_cs_double_slash pre post (shifts_follow 47 pre H)). Qed.
+Print Assumptions strip_cuts_at_double_slash.
+
+Definition silent_on (l : line) : Prop := ws_line 1 l = [].
+
+(* known finding: 	f("",g(""));  and the double space of  	f("")  + g(""); *)
+Theorem ws_after_empty_literal_refuted :
+     silent_on (of_string "	f(""""" ++ [44; 103] ++ of_string "(""""));")
+  /\ silent_on (of_string "	f("""")" ++ p_wit ws_spaces_middle ++ of_string "+ g("""");").
+Proof. vm_compute. split; reflexivity. Qed.
+
+(* NOT among the recorded findings: a string literal that contains "//" hides everything to its right
+   	auto x = f("http://a",b);      	auto x = f("http://a")  + 1; *)
+Theorem ws_after_literal_with_slashes_refuted :
+     silent_on (of_string "	auto x = f(""http://a""" ++ [44; 98] ++ of_string ");")
+  /\ silent_on (of_string "	auto x = f(""http://a"")" ++ p_wit ws_spaces_middle ++ of_string "+ 1;").
+Proof. vm_compute. split; reflexivity. Qed.
+
+(* NOT among the recorded findings: a character literal holding a double quote, with a string literal further right (the
+   two lines are the arguments of silent_on below, C++ text: foo( character literal of a double quote ,a, "x"); ) *)
+Theorem ws_after_quote_character_refuted :
+     silent_on (of_string "	foo('""'" ++ [44; 97] ++ of_string ", ""x"");")
+  /\ silent_on (of_string "	foo('""')" ++ p_wit ws_spaces_middle ++ of_string "+ g(""x"");").
+Proof. vm_compute. split; reflexivity. Qed.
+
+(* the premise about ",)" cannot be dropped: only the leftmost candidate is examined.   	F(a,) g(b,c); *)
+Theorem ws_comma_hidden_by_exempt_refuted :
+  let pre := of_string "	F(a,) g(b" in
+  closed_prefix pre = true /\ contains comma_exempt (strip_cs pre) = true /\ silent_on (pre ++ [44; 99] ++ of_string ");").
+Proof. vm_compute. repeat split; reflexivity. Qed.
+
 (* a carriage return anywhere in the file is reported once for the file (line 0) *)
 Theorem seeded_flagged_ws_carriage_return : forall hdr f i k l,
   nth_error f i = Some l -> in_ctx ws_carriage_return (firstn k l) (skipn k l) = true ->
@@ -328,6 +532,56 @@ Print Assumptions define_expansion_is_leaf_product.
 Theorem dependency_closure_sound_partial : forall ex t a b, process_rules ex = Some t -> In (a, b) (flatten t) -> reach ex a b.
 Proof. exact process_rules_sound. Qed.
 Print Assumptions dependency_closure_sound_partial.
+
+(* completeness, hence the exact characterisation: the compiled pairs are the paths of length >= 1 *)
+Theorem dependency_closure_exact : forall ex t a b, process_rules ex = Some t -> (In (a, b) (flatten t) <-> reach ex a b).
+Proof. exact process_rules_exact. Qed.
+Print Assumptions dependency_closure_exact.
+
+(* the answer is the loop error exactly when the graph of expanded rules has a cycle (the fuel of the model, one unit per
+   source name, never runs out: None is always RuntimeError('loop in rules detected')) *)
+Theorem dependency_loop_error_iff_cycle : forall ex, process_rules ex = None <-> exists a, reach ex a a.
+Proof. exact process_rules_none_iff. Qed.
+Print Assumptions dependency_loop_error_iff_cycle.
+
+Theorem dependency_closure_total_on_acyclic : forall ex, (forall a, ~ reach ex a a) -> exists t, process_rules ex = Some t.
+Proof. exact process_rules_acyclic. Qed.
+Print Assumptions dependency_closure_total_on_acyclic.
+
+(* DepsChecker.match answers True exactly when some path of declared rules connects names matching the two directories *)
+Theorem dependency_allowed_iff_path : forall table fuel d lines compiled ex src dest,
+  create_rules fuel d lines = Some compiled -> process_defines fuel d lines = Some ex ->
+  (deps_allowed table compiled src dest = true
+   <-> exists a b, reach ex a b /\ matches (name_regex table a) src = true /\ matches (name_regex table b) (fixed_dest src dest) = true).
+Proof. exact deps_allowed_iff. Qed.
+Print Assumptions dependency_allowed_iff_path.
+
+(* the shipped deps.config: no cycle (its closure is computed) *)
+Theorem shipped_rules_acyclic :
+  match process_defines deps_fuel deps_defines deps_lines with
+  | Some ex => forall a, ~ reach ex a a
+  | None => False
+  end.
+Proof.
+  destruct (process_defines deps_fuel deps_defines deps_lines) as [ex |] eqn:E.
+  - intros a Hr. pose proof (process_rules_cycle ex a Hr) as N.
+    pose proof (proj2 (proj2 (proj2 deps_config_ok))) as K. unfold create_rules in K. rewrite E, N in K. discriminate K.
+  - pose proof (proj2 (proj2 (proj2 deps_config_ok))) as K. unfold create_rules in K. rewrite E in K. discriminate K.
+Qed.
+Print Assumptions shipped_rules_acyclic.
+
+Example dependency_closure_nonvacuous :
+  let ex : list rule := [("a", "b"); ("b", "c"); ("a", "d")]%string in
+  let cyc : list rule := [("a", "b"); ("b", "a")]%string in
+  process_rules ex = Some [("b", ["c"]); ("a", ["c"; "b"; "d"])]%string
+  /\ reach ex "a"%string "c"%string /\ In ("a", "c")%string (flatten [("b", ["c"]); ("a", ["c"; "b"; "d"])]%string)
+  /\ process_rules cyc = None /\ reach cyc "a"%string "a"%string.
+Proof.
+  cbv zeta. split; [vm_compute; reflexivity |]. split.
+  - eapply reach_step; [left; reflexivity |]. apply reach_edge. right. left. reflexivity.
+  - split; [vm_compute; auto |]. split; [vm_compute; reflexivity |].
+    eapply reach_step; [left; reflexivity |]. apply reach_edge. right. left. reflexivity.
+Qed.
 
 (* an include whose directories are not connected by any path of declared rules is reported *)
 Theorem seeded_flagged_dependency : forall table fuel d lines compiled src dest ex,
